@@ -328,7 +328,7 @@ static void c06_exec(const op_t *op, int opidx) {
 static void c06_ctl(const op_t *op, reg *r, int slot) {
 	const item_t *it = &op->it;
 	const char *k = it->kind;
-	int rc;
+	int rc, faulted = 0;
 	if (0 == strcmp(k, "add")) {
 		uint16_t fl = (uint16_t)item_get(it, "fl", 0);
 		uint32_t ff = (uint32_t)item_get(it, "ff", 0);
@@ -344,8 +344,18 @@ static void c06_ctl(const op_t *op, reg *r, int slot) {
 		r->registered = 1; r->enabled = 1; r->flags = fl; r->fire_since_arm = 0; r->late_allowed = 0;
 		r->arm_seq = sim_evseq();
 		if (r->kind == RK_TIMER) timer_model_arm(r, fl, ff, data);
-		rc = tpt_ev_add_args(reg_tpt(r), kind_event(r->kind), fl, ff, data, &r->u);
-		sim_log("add slot=%d kind=%d thr=%d fl=%x ff=%x data=%llu -> %d", slot, r->kind, r->thr, fl, ff, (unsigned long long)data, rc);
+		{ int ff0 = sim_fault_fired_op(sim_get_op()); rc = tpt_ev_add_args(reg_tpt(r), kind_event(r->kind), fl, ff, data, &r->u); faulted = sim_fault_fired_op(sim_get_op()) > ff0; }
+		sim_log("add slot=%d kind=%d thr=%d fl=%x ff=%x data=%llu -> %d%s", slot, r->kind, r->thr, fl, ff, (unsigned long long)data, rc, faulted ? " (injected fault)" : "");
+		if (faulted) {
+			/* a system call inside the registration failed (injected): the call must report it and leave NOTHING behind -
+			 * a later registration of the same tp_udata starts from scratch */
+			sim_probe("ev.add_failed_by_injected_fault");
+			if (0 == rc) { CTLV("ev-ctl-failed", "slot %d: a system call inside tpt_ev_add failed (injected) but the call returned 0", slot); return; }
+			r->registered = 0; r->enabled = 0;
+			if (r->kind == RK_TIMER && (r->u.tpdata & 0xffffffffu) != 0 && !sim_timer_by_fd((int)(r->u.tpdata & 0xffffffffu)))
+				{ CTLV("ev-stale-state", "slot %d: the failed timer registration left a descriptor number (%d) in the registration that is not an open timer", slot, (int)(r->u.tpdata & 0xffffffffu)); return; }
+			return;
+		}
 		if (0 != rc) {
 			if (r->kind == RK_TIMER) sim_violation("ev-timer-refused", "well-formed timer (flags %x fflags %x data %llu) was refused with error %d", fl, ff, (unsigned long long)data, rc);
 			else CTLV("ev-ctl-failed", "slot %d: well-formed registration (kind %d flags %x fflags %x) was refused with error %d", slot, r->kind, fl, ff, rc);
@@ -605,6 +615,12 @@ static void c06_gen(plan_t *p, rng_t *r, int tier) {
 			item_set(&op->it, "data", rng_chance(r, 300) ? (long long)rng_below(r, 4) : 0);
 		}
 		if (is_write_kind(kind)) { item_set(&op->it, "full", rng_chance(r, 500)); item_set(&op->it, "wb", (long long)rng_below(r, 4)); }
+		if (kind != RK_PROC && rng_chance(r, 70)) {
+			/* a system call inside the registration fails */
+			static const char *tsites[] = { "epoll_ctl", "epoll_ctl", "timerfd_create", "timerfd_settime" };
+			item_t *f = op_add_fault(op, kind == RK_TIMER ? tsites[rng_below(r, 4)] : "epoll_ctl");
+			if (f) { item_set(f, "nth", 1); item_set(f, "err", rng_chance(r, 500) ? ENOMEM : ENOSPC); }
+		}
 		if (kind == RK_PROC) { item_set(&op->it, "exitns", (long long)rng_range(r, 1000, 30000000)); item_set(&op->it, "status", (long long)rng_below(r, 256) << 8); }
 	}
 	for (int i = 0; i < nops; i++) {
